@@ -122,6 +122,25 @@ pub fn run(ctx: &mut Ctx) {
         ctx.stat_n("exhaustive_targeted", v.len() as u64);
         for s in &v { lex_case(ctx, s); }
     }
+    // unicode escapes: EVERY four-digit escape (all 65536 values; the surrogate range and its neighbours also in
+    // lower case and inside text), surrogate pairs at every boundary combination, braced escapes at the boundaries
+    let mut esc = 0u64;
+    for cp in 0..=0xFFFFu32 {
+        lex_case(ctx, &format!("\"\\u{:04X}\"", cp)); esc += 1;
+        if (0xD7F0..=0xE010).contains(&cp) || cp % 0x101 == 0 {
+            lex_case(ctx, &format!("\"\\u{:04x}\"", cp));
+            lex_case(ctx, &format!("\"a\\u{:04X} b\" x", cp)); esc += 2;
+        }
+    }
+    let bounds = [0xD7FFu32, 0xD800, 0xD801, 0xDBFE, 0xDBFF, 0xDC00, 0xDC01, 0xDFFE, 0xDFFF, 0xE000, 0x0041, 0xFFFF];
+    for a in bounds { for b in bounds {
+        lex_case(ctx, &format!("\"\\u{:04X}\\u{:04X}\"", a, b));
+        lex_case(ctx, &format!("\"\\u{:04x}x\\u{:04x}\"", a, b)); esc += 2;
+    } }
+    for v in ["0", "41", "D7FF", "D800", "DBFF", "DC00", "DFFF", "dfff", "E000", "FFFF", "10000", "10FFFF", "110000", "FFFFFF", "0000041", "", "G", "D800}\\u{DC00"] {
+        lex_case(ctx, &format!("\"\\u{{{}}}\"", v)); esc += 1;
+    }
+    ctx.stat_n("unicode_escape_cases", esc);
     // token limits on all short strings
     let mut short = vec![];
     for_all_strings(&CLASS_ALPHABET, if ctx.thorough { 3 } else { 2 }, |s| short.push(s.to_string()));
